@@ -19,6 +19,7 @@ CHECK = {
         {"exe": "c16_tensor", "flavour": "asan", "cases": (31000, 620000), "procs": (3, 6), "subs": ["small", "large"]},
         {"exe": "c16_tensor_hi", "flavour": "asan", "cases": (41000, 492000), "procs": (3, 6), "subs": ["small-hi", "large-hi", "stack"]},
     ],
+    "fuzzers": [{"exe": "fz_tensor", "runs": (4000, 600000), "max_len": 256, "jobs": (4, 12)}],
     "min_nontrivial": (9900, 9900),
     "timeout": (900, 7200),
     "rule": ("For every rank 1..5, every shape with all extents in 0..4 (rank 5: 0..3) and every scalar type (int8, uint8, int32, uint64, "
@@ -39,7 +40,7 @@ CHECK = {
              "shape), >= 100 elements (large shapes), a block matrix (stack).  Distinct = distinct serialised cases (64-bit hash)."),
     "assumptions": ["harness-side row-major arithmetic and mirror are correct", "AddressSanitizer / UBSan (memory-safety subset) report out-of-block accesses",
                     "Eigen allocates the owning tensors' blocks with plain malloc (exactly sized)", "rapidcheck generators"],
-    "technique": "exhaustive enumeration of small shapes + property-based testing (rapidcheck) against a row-major mirror model, under AddressSanitizer",
+    "technique": "exhaustive enumeration of small shapes + property-based testing (rapidcheck) + coverage-guided fuzzing (libFuzzer) against a row-major mirror model, under AddressSanitizer",
     "level_text": ("Generated-input exploration with a completely enumerated finite sub-space: all 10944 (rank, shape, scalar type) combinations with "
                    "extents in 0..4 (rank 5: 0..3) are checked for every index tuple, prefix, slice and reshape factorisation on every run; beyond "
                    "that tens of thousands (quick) to millions (thorough) of random cases including shapes up to 1e5 elements.  Held on everything "
